@@ -31,9 +31,13 @@ class C08(LZCheckMixin, PropertyCheck):
 
     def oracle(self, case, impl_out, profile):
         data = parse_hex(case.line.split(" ")[2])
-        if len(data) >= 1 << 24:
-            return None
         cat, c, rt = parse_compress_out(impl_out)
+        if len(data) >= 1 << 24:
+            # outside the property's first sentence; F21: the 24-bit size field cannot store the length, so the only
+            # acceptable results are an error, or a stream that really decodes to the input
+            if cat == "err" or (cat == "ok" and rt == "rt:same"):
+                return None
+            return "input of %d bytes (>= 16 MiB): neither rejected nor a stream that decodes to the input: %s %s" % (len(data), cat, rt)
         if cat != "ok":
             return "LZ10 compression did not succeed: %s" % impl_out[:80]
         try:
@@ -50,7 +54,7 @@ class C08(LZCheckMixin, PropertyCheck):
 
     def shrink_candidates(self, case):
         parts = case.line.split(" ")
-        if parts[2][0] == "P":
+        if parts[2][0] == "P" or "+" in parts[2]:
             for t in shrink_ptok(parts[2]):
                 yield Case("%s 0 %s" % (parts[0], t), case.stream)
             return
@@ -62,7 +66,7 @@ TB = ("Trusted: Coq 8.16.1 kernel (vm_compute, no native_compute), no axioms (Pr
       "ExtrOcamlBasic extraction + hand-written OCaml driver, the Rust harness and Python generators/oracles. ")
 
 MANIFEST = dict(
-    text="Theorems (Coq 8.16, closed under the global context) about executable Gallina models of LZ10CompressionFormat::compress (get_occurrence_length, the greedy loop with window min(pos,0x1000) and look-ahead 0x12, the flag/token emission loop, header and token bytes with the shift/mask expressions of src/lz10.rs) and of the library's decoder (lz13::decompress_lz as it is after the repair of F14): for EVERY byte string shorter than 2^24 the output is accepted completely by a strict LZ10 parser written from the format description (type 0x10, 24-bit LE size = input length, flag groups of eight tokens MSB first, references of length 3-18 and displacement 1-4096 reaching only into produced data, exact size, no byte left over) and its tokens expand to the input; the library's decompressor returns the input in the checked and the wrapping profile, also through the enum CompressionFormat; the greedy token sequence expands to the input for every input (overlapping copies included). 'Compression succeeds' is a theorem too: a machine-level model of get_occurrence_length and of the loop of lz10.rs (checked slice indexing, usize arithmetic in a profile, the 17-byte out_buffer array) returns Ok of exactly the list model's output for every input shorter than 2^63 bytes in either profile. The models are tied to /repo on every run: extracted model vs real library byte-for-byte on bounded-exhaustive small alphabets, every run/period length 0..300 (thorough 700), structured inputs <= 6 KiB, both build profiles; larger inputs (quick 64 KiB + repeats up to 140000 bytes, thorough 1 MiB) and the 16 MiB boundary (2^24-1, 2^24-2 bytes) implementation + oracle only; an independent Python strict parser/expander judges every implementation output.",
-    note=TB + 'Modelled, not verified (A-std): Vec, slices, integer casts, 64-bit usize. In the machine-level model the filled prefix of out_buffer is a list and the i32 token-byte expressions are evaluated without overflow checks (values <= 0x1000). Nothing is claimed for inputs of 16 MiB and more (the 24-bit size is truncated there). notes/lz.md lists 7 mutations of /repo, all reported by the quick check.',
+    text="Theorems (Coq 8.16, closed under the global context) about executable Gallina models of LZ10CompressionFormat::compress (get_occurrence_length, the greedy loop with window min(pos,0x1000) and look-ahead 0x12, the flag/token emission loop, header and token bytes with the shift/mask expressions of src/lz10.rs) and of the library's decoder (lz13::decompress_lz as it is after the repair of F14): for EVERY byte string shorter than 2^24 the output is accepted completely by a strict LZ10 parser written from the format description (type 0x10, 24-bit LE size = input length, flag groups of eight tokens MSB first, references of length 3-18 and displacement 1-4096 reaching only into produced data, exact size, no byte left over) and its tokens expand to the input; the library's decompressor returns the input in the checked and the wrapping profile, also through the enum CompressionFormat; the greedy token sequence expands to the input for every input (overlapping copies included). 'Compression succeeds' is a theorem too: a machine-level model of compress (the size guard of F21, get_occurrence_length and the loop of lz10.rs with checked slice indexing, usize arithmetic in a profile, the 17-byte out_buffer array) returns Ok of exactly the list model's output for every input shorter than 2^24 bytes in either profile, returns Err(InputTooLarge) from 2^24 bytes on (before the repair of F21 such an input was written with a truncated size), and equals the exported list model compress10_o on EVERY input; whatever compress returns Ok for is read back by the library's decompressor (no size hypothesis). The models are tied to /repo on every run: extracted model vs real library byte-for-byte on bounded-exhaustive small alphabets, every run length 0..299 (thorough 0..699; period-2 / period-19 inputs at every third length), structured inputs <= 6 KiB, both build profiles; larger inputs (quick 64 KiB + repeats up to 140000 bytes, thorough 1 MiB) and the 16 MiB boundary (2^24-1, 2^24-2 bytes succeed; 2^24 and 2^24+5 bytes are rejected by model and implementation alike) with compact P<len>:<pattern> inputs; an independent Python strict parser/expander judges every implementation output.",
+    note=TB + 'Modelled, not verified (A-std): Vec, slices, integer casts, 64-bit usize. In the machine-level model the filled prefix of out_buffer is a list and the i32 token-byte expressions are evaluated without overflow checks (values <= 0x1000). Inputs of 16 MiB and more are rejected (F21). notes/lz.md lists the mutations of /repo, all reported by the quick check.',
     technique='Coq proof (induction on the greedy loop, parser/encoder inversion, decoder simulation) + extracted-model differential check + independent Python stream parser as oracle',
     ref='DESIGN.md section 4 (C08); notes/lz.md')
